@@ -52,6 +52,29 @@ def _decorate_t2(root):
                                                Reference(tsym)))
 
 
+def _decorate_s4(root):
+    '''Shadowing in s4: the if body declares its OWN loop variable `i` (the
+    routine has an `i` too) and loops over it; the body of that loop declares
+    its own scalar `x` (the routine has an `x` too).  Legal PSyIR, made through
+    the public API; the Fortran backend renames on output.'''
+    from psyclone.psyir.nodes import (IfBlock, Loop, Assignment, Reference,
+                                      Literal, ArrayReference)
+    from psyclone.psyir.symbols import DataSymbol, INTEGER_TYPE, REAL_TYPE
+    rout = root.children[0]
+    body = rout.walk(IfBlock)[0].if_body
+    arr = rout.symbol_table.lookup("a")
+    inner_i = DataSymbol("i", INTEGER_TYPE)
+    body.symbol_table.add(inner_i)
+    inner_x = DataSymbol("x", REAL_TYPE)
+    loop = Loop.create(
+        inner_i, Literal("2", INTEGER_TYPE), Literal("9", INTEGER_TYPE),
+        Literal("1", INTEGER_TYPE),
+        [Assignment.create(Reference(inner_x),
+                           ArrayReference.create(arr, [Reference(inner_i)]))])
+    loop.loop_body.symbol_table.add(inner_x)
+    body.addchild(loop)
+
+
 FAMILY = [
     {"name": "m1", "decorate": None, "src": '''
 module m1
@@ -117,6 +140,20 @@ contains
     end if
   end subroutine u3
 end module m3
+'''},
+    {"name": "s4", "decorate": _decorate_s4, "src": '''
+subroutine s4(flag)
+  logical, intent(in) :: flag
+  integer :: i
+  real :: x
+  real, dimension(10) :: a
+  do i = 1, 10
+    a(i) = x
+  end do
+  if (flag) then
+    a(1) = x
+  end if
+end subroutine s4
 '''},
 ]
 NAMES = [f["name"] for f in FAMILY]
@@ -530,8 +567,9 @@ class World:
         from psyclone.psyir.nodes import Node
         root = self.side(which)
         if root is None:
-            return {"t": None, "D": [], "N": [], "u": [], "n": [], "s": []}
-        decls, kinds, uses, objs, syms = [], [], [], [], []
+            return {"t": None, "D": [], "N": [], "u": [], "n": [], "s": [],
+                    "st": []}
+        decls, kinds, uses, objs, syms, where = [], [], [], [], [], []
         for node in root.walk(Node):
             objs.append((self.obj(node), "tree"))
         for path, node in walk_abs(root):
@@ -546,6 +584,7 @@ class World:
                 continue
             for sym in node.symbol_table.symbols:
                 syms.append(self.obj(sym))
+                where.append({"o": self.obj(sym), "tp": path})
                 head = sym_head(sym)
                 decls.append({"p": path, "s": head["name"], "cls": head["cls"],
                               "ifc": head["ifc"], "arr": head["arr"],
@@ -560,4 +599,4 @@ class World:
                 for cat, dnode in dnodes:
                     objs.append((self.obj(dnode), cat))
         return {"t": write(root) if text else None, "D": decls, "N": kinds,
-                "u": uses, "n": objs, "s": syms}
+                "u": uses, "n": objs, "s": syms, "st": where}
